@@ -13,6 +13,9 @@ ops: f8 f4 fi u8 u4 ui (get_fdata fill/unchanged, float64/float32/int16) as (np.
      gf gu (legacy get_data(caching=fill/unchanged)) hs:<s>:<i>|hs:- hh:<shape> hd:<dt> (img.header edits)
      os:.. oh:.. od:.. (edits of the header object the image / proxy was created from)
      rh (read img.header) rs (read dataobj.shape/dtype/slope/inter)
+     x8 x4 y8 y4 (get_fdata fill/unchanged while the proxy's file cannot be opened: the proxy's file_like is
+     pointed at a missing name for the call)  sb (dataobj[0:d0, 0:d1, ...])  r:<mask> (full-length slices,
+     the axes flagged 1 reversed; harness tokens r0 rL rA r0L)
 result: one token per op (A<id>:<shape>:<dt>:<writeable><mapped>:<values> | B<bool> | H.. | S.. |
 R:<refusal> | -), the final values of every returned array, whether the file is unchanged, and
 whether the abstract specification agreed with the concrete model on every step.
@@ -30,7 +33,10 @@ from common import Check, ensure_impl_path, run_model, run_model_parallel, vm_cr
 PROP = 'C13'
 
 ALPHA = ['f8', 'f4', 'u8', 'u4', 'as', 'sl', 'sf', 'un', 'ed', 'im', 'hs:3:5', 'hh:4.2.1', 'os:3:5', 'oh:4.2.1']
-EXTRA = ['fi', 'ui', 'gf', 'gu', 'hd:i2', 'hd:f8', 'od:i2', 'od:f8', 'hs:-', 'os:-', 'rh', 'rs', 'oh:8.1.1', 'hh:8']
+# get_fdata while the image file cannot be opened (x: fill, y: unchanged), explicit full bounds, full-length
+# reversed slices (axis 0 / last axis / all axes / first and last)
+NEW = ['x8', 'x4', 'sb', 'r0', 'rL', 'rA']
+EXTRA = ['x8', 'x4', 'y8', 'y4', 'sb', 'r0', 'rL', 'rA', 'r0L', 'fi', 'ui', 'gf', 'gu', 'hd:i2', 'hd:f8', 'od:i2', 'od:f8', 'hs:-', 'os:-', 'rh', 'rs', 'oh:8.1.1', 'hh:8']
 EPILOGUE = ['rh', 'rs', 'im']
 NPDT = {'i2': np.int16, 'f4': np.float32, 'f8': np.float64}
 
@@ -111,6 +117,24 @@ def get_data_expired():
     return EXPIRED[0]
 
 
+def rev_mask(tok, ndim):
+    m = [False] * ndim
+    if tok in ('r0', 'r0L', 'rA'):
+        m[0] = True
+    if tok in ('rL', 'r0L', 'rA'):
+        m[-1] = True
+    if tok == 'rA':
+        m = [True] * ndim
+    return m
+
+
+def model_ops(c, ops):
+    """reversed-slice tokens carry the explicit axis mask on the model line"""
+    nd = len(c['shape'])
+    return [('r:' + ''.join('1' if b else '0' for b in rev_mask(t, nd))) if t[0] == 'r' and t not in ('rh', 'rs') else t
+            for t in ops]
+
+
 def model_prefix(c):
     n = int(np.prod(c['shape']))
     sh = '.'.join(map(str, c['shape']))
@@ -161,6 +185,8 @@ def refusal(e):
         return 'R:short_file'
     if type(e).__name__ == 'ExpiredDeprecationError':
         return 'R:expired'
+    if isinstance(e, FileNotFoundError):
+        return 'R:unreadable'
     return 'R:other:' + type(e).__name__
 
 
@@ -237,6 +263,23 @@ def impl_trace(c, ops, workdir):
             if k in ('f8', 'f4', 'fi', 'u8', 'u4', 'ui'):
                 dt = {'8': 'f8', '4': 'f4', 'i': 'i2'}[k[1]]
                 r = img.get_fdata(caching='fill' if k[0] == 'f' else 'unchanged', dtype=NPDT[dt])
+            elif k in ('x8', 'x4', 'y8', 'y4'):
+                dt = 'f8' if k[1] == '8' else 'f4'
+                d = img.dataobj
+                old = getattr(d, 'file_like', None)
+                if old is not None:            # the proxy's file is "moved away" for the duration of the call
+                    d.file_like = old + '.moved-away'
+                try:
+                    r = img.get_fdata(caching='fill' if k[0] == 'x' else 'unchanged', dtype=NPDT[dt])
+                finally:
+                    if old is not None:
+                        d.file_like = old
+            elif k in ('r0', 'rL', 'rA', 'r0L'):
+                slicer = tuple(slice(None, None, -1) if m else slice(None) for m in rev_mask(k, len(c['shape'])))
+                r = img.dataobj[slicer]
+            elif k == 'sb':
+                slicer = tuple(slice(0, int(x)) for x in c['shape'])
+                r = img.dataobj[slicer]
             elif k == 'as':
                 r = np.asarray(img.dataobj)
             elif k == 'sl':
@@ -295,7 +338,7 @@ def impl_trace(c, ops, workdir):
                                            bool(r.flags.writeable), is_mapped(r), vals_str(r)))
         # ---- property predicate on this access
         if pred is None:
-            if k in ('f8', 'f4', 'u8', 'u4'):
+            if k in ('f8', 'f4', 'u8', 'u4', 'x8', 'x4', 'y8', 'y4'):
                 dt = 'f8' if k[1] == '8' else 'f4'
                 if dtname(r.dtype) != dt:
                     pred = f'step {step}: get_fdata returned dtype {r.dtype}, asked {dt}'
@@ -309,7 +352,7 @@ def impl_trace(c, ops, workdir):
                         pred = f'step {step}: uncached get_fdata does not reflect the file'
                     elif c['kind'] == 'A' and not np.array_equal(r, own):
                         pred = f"step {step}: get_fdata differs from the image's own array"
-                    if k[0] == 'f':
+                    if k[0] in 'fx':
                         cached = (r, dt)
             elif k in ('gf', 'gu'):
                 if dcached is not None:
@@ -325,9 +368,9 @@ def impl_trace(c, ops, workdir):
                         pred = f"step {step}: get_data is not the image's own array"
                     if k == 'gf':
                         dcached = r
-            elif k in ('as', 'sf', 'sl'):
+            elif k in ('as', 'sf', 'sl', 'sb', 'r0', 'rL', 'rA', 'r0L'):
                 ref = filevals if c['kind'] == 'P' else own
-                want = ref if k != 'sl' else ref[..., 1]
+                want = ref[..., 1] if k == 'sl' else ref[slicer] if k[0] == 'r' else ref
                 if r.shape != want.shape or not np.array_equal(r, want):
                     pred = f'step {step}: {k} does not reflect the ' + ('file' if c['kind'] == 'P' else 'own array')
                 elif c['kind'] == 'P' and not isnew:
@@ -466,17 +509,34 @@ def run(chk: Check):
         for seq in itertools.product(ALPHA[:10] + ['gf', 'gu'], repeat=3 if not thorough else 4):
             if 'gf' in seq or 'gu' in seq:
                 plan.append((ci, list(seq) + EPILOGUE))
+    # a failing read (file moved away) and full-length / reversed slicers, mixed with the core operations
+    new_cfgs = [A(dt, order='C') for dt in ('i2', 'f4', 'f8')] + \
+        [P(dt, scl, True) for dt in ('i2', 'f4', 'f8') for scl in (None, (2, 1))] + [P('f8', None, False), P('i2', (2, 1), False)]
+    if thorough:
+        new_cfgs = main_cfgs
+    base8 = ['f8', 'f4', 'u8', 'as', 'un', 'ed', 'im', 'sl']
+    for c in new_cfgs:
+        ci = idx[cfg_name(c)]
+        for seq in itertools.product(base8 + NEW, repeat=3):
+            if any(t in NEW for t in seq):
+                plan.append((ci, list(seq) + EPILOGUE))
     for c in odd_cfgs + [c for c in arr_cfgs if c['order'] == 'F']:
         ci = idx[cfg_name(c)]
-        for seq in itertools.product(ALPHA, repeat=2):
+        for seq in itertools.product(ALPHA + NEW, repeat=2):
             plan.append((ci, list(seq) + EPILOGUE))
+    # compressed files are read through a persistent (indexed gzip) opener: pointing file_like elsewhere does
+    # not make the next read fail, so the failing-read operations are not used on them
+    plan = [(ci, ops) for ci, ops in plan if not (cfgs[ci].get('gz') and any(t[0] in 'xy' for t in ops))]
     n_exh = len(plan)
     allops = ALPHA + EXTRA
-    weights = [4] * 4 + [3, 3, 3, 3, 5, 2] + [1] * 4 + [1] * len(EXTRA)
+    weights = [4] * 4 + [3, 3, 3, 3, 5, 2] + [1] * 4 + [2] * 9 + [1] * (len(EXTRA) - 9)
     for _ in range(chk.n(2500, 40000)):
         ci = rng.randrange(len(cfgs))
         depth = rng.randrange(5, 31)
-        plan.append((ci, rng.choices(allops, weights=weights, k=depth)))
+        ops = rng.choices(allops, weights=weights, k=depth)
+        if cfgs[ci].get('gz'):
+            ops = ['im' if t[0] in 'xy' else t for t in ops]
+        plan.append((ci, ops))
     chk.exhaustive = False
     chk.extra['exhaustive_core'] = {'depth_all_configs': d_all, 'depth_deep_configs': d_deep,
                                     'deep_configs': [cfg_name(c) for c in deep], 'sequences': n_exh,
@@ -498,7 +558,7 @@ def run(chk: Check):
     for ch, rs in zip(jobidx, res):
         for k, r in zip(ch, rs):
             impl[k] = r
-    lines = [f"{k} {model_prefix(cfgs[ci])} {' '.join(ops)}" for k, (ci, ops) in enumerate(plan)]
+    lines = [f"{k} {model_prefix(cfgs[ci])} {' '.join(model_ops(cfgs[ci], ops))}" for k, (ci, ops) in enumerate(plan)]
     mod = run_model_parallel(PROP, lines, jobs=6)
 
     # ---- compare
@@ -571,9 +631,12 @@ def coq_op(tok):
     simple = {'f8': 'GetFdata Fill F8', 'f4': 'GetFdata Fill F4', 'fi': 'GetFdata Fill I2', 'u8': 'GetFdata Unchanged F8',
               'u4': 'GetFdata Unchanged F4', 'ui': 'GetFdata Unchanged I2', 'as': 'AsArray', 'sl': 'Slice SLast1',
               'sf': 'Slice SFull', 'un': 'Uncache', 'ed': 'EditLast', 'im': 'InMemory', 'gf': 'GetData Fill', 'gu': 'GetData Unchanged',
-              'rh': 'ReadHdr', 'rs': 'ReadSpec'}
+              'rh': 'ReadHdr', 'rs': 'ReadSpec', 'x8': 'FdataBroken Fill F8', 'x4': 'FdataBroken Fill F4',
+              'y8': 'FdataBroken Unchanged F8', 'y4': 'FdataBroken Unchanged F4', 'sb': 'Slice SFull'}
     if k in simple:
         return simple[k]
+    if k == 'r':
+        return 'Slice (SRev [' + ';'.join('true' if ch == '1' else 'false' for ch in p[1]) + '])'
     pre = 'Hdr' if k[0] == 'h' else 'Orig'
     if k[1] == 's':
         return f'{pre}Scl None' if p[1] == '-' else f'{pre}Scl (Some ({p[1]}, {p[2]}))'
@@ -611,7 +674,7 @@ def coq_out_tokens(line):
             out.append('TBool ' + ('true' if t[1] == '1' else 'false'))
         elif t[0] == 'R':
             out.append('TRef E' + {'not_float': 'NotFloat', 'expired': 'Expired', 'read_only': 'ReadOnly',
-                                   'index': 'Index', 'short_file': 'ShortFile'}[t[2:]])
+                                   'index': 'Index', 'short_file': 'ShortFile', 'unreadable': 'Unreadable'}[t[2:]])
         else:
             out.append('TOther')
     return '[' + '; '.join(out) + ']'
@@ -625,7 +688,7 @@ def vm_pairs(cfgs, plan, mod, n_exh):
         line = mod.get(str(k), '')
         if not line.startswith('ok'):
             continue
-        ops_c = '[' + '; '.join(coq_op(t) for t in ops) + ']'
+        ops_c = '[' + '; '.join(coq_op(t) for t in model_ops(cfgs[ci], ops)) + ']'
         pairs.append((f'check_case ({coq_init(cfgs[ci])}) {ops_c} {coq_out_tokens(line)}', f'case {k}'))
     return pairs[:100]
 
@@ -645,7 +708,7 @@ def replay(chk, obj):
         warnings.simplefilter('ignore')
         itrace, pred = impl_trace(c, case['ops'], chk.workdir)
     chk.build()
-    mod = run_model(PROP, [f"0 {model_prefix(c)} {' '.join(case['ops'])}"])
+    mod = run_model(PROP, [f"0 {model_prefix(c)} {' '.join(model_ops(c, case['ops']))}"])
     mtrace, spec = canon_model(mod.get('0', '<missing>'), c)
     print('config :', cfg_name(c))
     print('ops    :', ' '.join(case['ops']))
